@@ -75,7 +75,10 @@ def observe(kind, V, X, extra):
     out["glap"] = _try(lambda: O.graph_laplacian(m))
     out["adj_one"] = _try(lambda: O.adjacency_matrix(m))
     out["adj_len"] = _try(lambda: O.adjacency_matrix(m, weights="length"))
-    wd = {e: float(extra["ew"][e % len(extra["ew"])]) for e in range(len(E))}
+    # the weight dict is filled in a scrambled (but deterministic) key order: a dict is a map from edge id to weight,
+    # its insertion order must not matter
+    order = sorted(range(len(E)), key=lambda e: (e * 7919 + 13) % max(1, len(E) + 3))
+    wd = {e: float(extra["ew"][e % len(extra["ew"])]) for e in order}
     out["adj_dict"] = _try(lambda: O.adjacency_matrix(m, weights=wd))
     out["v2e"] = _try(lambda: O.vertex_to_edge_operator(m))
     out["v2e_or"] = _try(lambda: O.vertex_to_edge_operator(m, oriented=True))
